@@ -351,6 +351,7 @@ func c13(r *core.Report) {
 	c13Close(r)
 	c13SecondPass(r)
 	c13Captured(r)
+	c13ReadGuard(r)
 	settingsReadOnly(r, "C13.settingsro")
 	p := r.Prog
 	pk := p.Pkg("openapi3filter")
